@@ -151,9 +151,11 @@ class ExprMixin:
                     yield st, SV(self.o.seq_get(st, self.o.r(o), fields.index(attr)))
                     return
         cls = self.static_class(st, o, attr)
-        if cls is None and attr in ("method", "ciphertext") and self.o.entails(st, self.o.is_type(o.e, "ref:SecureValue")):
-            yield st, SV(self.o.seq_get(st, self.o.r(o), NAMEDTUPLES["SecureValue"].index(attr)))
-            return
+        if cls is None and o.e is not None and self.o.spec_depth == 0:
+            for nt, fields in NAMEDTUPLES.items():
+                if attr in fields and self.o.entails(st, self.o.is_type(o.e, "ref:" + nt)):
+                    yield st, SV(self.o.seq_get(st, self.o.r(o), fields.index(attr)))
+                    return
         if cls is None and cx.spec is not None:
             owners = self.reg.attr_owners(attr)
             owners = [c for c in owners if not self.reg.attrs[(c, attr)].startswith("rep:")] or owners
